@@ -195,7 +195,55 @@ def check_queries(sm, rnd, label, cap=None):
     return None
 
 
+async def nested_three_levels():
+    """deterministic scenario: three nested shared directories added / removed in every order"""
+    for order in itertools.permutations(['music', 'music/rock', 'music/rock/live']):
+        with tempfile.TemporaryDirectory() as tmp:
+            tmp = os.path.realpath(tmp)
+            for d, f in (('music', 'a song.mp3'), ('music/rock', 'b song.mp3'), ('music/rock/live', 'c song.mp3'), ('music/rock/live/cd1', 'd song.mp3'), ('music/pop', 'e song.mp3')):
+                os.makedirs(os.path.join(tmp, d), exist_ok=True)
+                open(os.path.join(tmp, d, f), 'w').close()
+            client = make_client(tmp)
+            sm = client.shares
+            added = {}
+            for d in order:
+                added[d] = sm.add_shared_directory(os.path.join(tmp, d))
+                why = check_owner(sm, f'nested add {d} (order {order})')
+                if why:
+                    return why
+                await sm.scan()
+                why = check_index(sm, f'nested add {d} + scan (order {order})')
+                if why:
+                    return why
+            for d in order:
+                sm.remove_shared_directory(added[d])
+                why = check_owner(sm, f'nested remove {d} (order {order})') or check_index_subset(sm, f'nested remove {d} (order {order})')
+                if why:
+                    return why
+    return None
+
+
+def check_index_subset(sm, label):
+    """without a rescan: no file indexed twice, every item under the innermost shared directory containing it"""
+    dirs = list(sm.shared_directories)
+    seen = {}
+    for d in dirs:
+        for it in d.items:
+            p = os.path.normpath(it.get_absolute_path())
+            if p in seen:
+                return f'{label}: {p} is indexed twice'
+            seen[p] = d
+    for p, d in seen.items():
+        inner = max((x for x in dirs if os.path.commonpath([x.absolute_path, p]) == x.absolute_path), key=lambda x: len(x.absolute_path))
+        if inner is not d:
+            return f'{label}: {p} is indexed under {d.absolute_path}, the innermost shared directory is {inner.absolute_path}'
+    return None
+
+
 async def main():
+    why = await nested_three_levels()
+    if why:
+        return True, why, {'scenario': 'three nested shared directories'}
     rnd = random.Random(SEED)
     for rno in range(ROUNDS):
         with tempfile.TemporaryDirectory() as tmp:
